@@ -84,6 +84,26 @@ Theorem C02_reduce_fuel_sufficient :
 Proof. exact reduce_fuel_sufficient. Qed.
 Print Assumptions C02_reduce_fuel_sufficient.
 
+(* FULL: the view is faithful - mp_coeffs x / mp_of_coeffs x preserve the value (canonical input), so the
+   statements about views are statements about the multivariate polynomials themselves ... *)
+Theorem C02_view_of_polynomial :
+  forall rho x p, mp_wf p = true -> cp_eval rho (rho x) (mp_coeffs x p) = mp_eval rho p.
+Proof. exact mp_coeffs_eval. Qed.
+Print Assumptions C02_view_of_polynomial.
+Theorem C02_polynomial_of_view :
+  forall rho x l, mp_eval rho (mp_of_coeffs x l) = cp_eval rho (rho x) l.
+Proof. exact mp_of_coeffs_eval. Qed.
+Print Assumptions C02_polynomial_of_view.
+
+(* FULL: ... in particular for the entry point the correspondence runs (coefficient_reduce on polynomials, all
+   four variants): P*A = Q*B + R at every integer point, i.e. as polynomials in Z[x0, x1, ...] *)
+Theorem C02_m_reduce_identity :
+  forall lcmf fuel ty A B P Q R, mp_wf A = true -> mp_wf B = true ->
+  m_reduce lcmf fuel ty A B = Some (P, Q, R) ->
+  forall rho, (mp_eval rho P * mp_eval rho A = mp_eval rho Q * mp_eval rho B + mp_eval rho R)%Z.
+Proof. exact m_reduce_identity. Qed.
+Print Assumptions C02_m_reduce_identity.
+
 (* ================================================================== 2. exact division / division with remainder *)
 (* FULL: coefficient_rem / divrem (EXACT_SPARSE): A = Q*B + R, the multiplier being 1 *)
 Theorem C02_divrem_identity :
@@ -226,16 +246,15 @@ Proof. exact udiv_rem_exact_spec. Qed.
 Print Assumptions C02_udiv_rem_exact.
 
 (* ================================================================== 5. divisibility *)
-(* PARTIAL (soundness of the REPAIRED lp_upolynomial_divides over Z): a `true` answer comes with a quotient
-   in Z[x].  This is the direction the pinned code violated. *)
-Theorem C02_udivides_Z_sound_partial :
-  forall p q : seq Z, pnorm p = p ->
-  udivides None false p q = Some true -> exists d : {poly Z}, Poly q = d * Poly p.
-Proof. exact udivides_Z_sound. Qed.
-Print Assumptions C02_udivides_Z_sound_partial.
-Definition C02_udivides_Z_iff_full_statement : Prop :=
+(* FULL (the REPAIRED lp_upolynomial_divides over Z): for canonical operands, divisor non-zero, the predicate
+   answers true EXACTLY when a quotient exists in Z[x].  (On the pinned code this is refuted below.) *)
+Theorem C02_udivides_Z_iff :
   forall p q : seq Z, pnorm p = p -> pnorm q = q -> p <> nil ->
   (udivides None false p q = Some true <-> exists d : {poly Z}, Poly q = d * Poly p).
+Proof. exact udivides_Z_iff. Qed.
+Print Assumptions C02_udivides_Z_iff.
+
+(* the repaired multivariate coefficient_divides has no theorem yet; the statement it should satisfy: *)
 Definition C02_divides_iff_full_statement : Prop :=
   forall lcmf fuel C1 C2 b, m_divides lcmf fuel C1 C2 = Some b ->
   (b = true <-> exists Q, forall rho, mp_eval rho C2 = (mp_eval rho Q * mp_eval rho C1)%Z).
